@@ -598,5 +598,6 @@ Section Examples.
 End Examples.
 
 Lemma ex_opinvs_value :
-  ex_opinvs = [Some [[2; 1]; [1; 3]]; Some [[5; 1]; [1; 4]]; None; Some [[0; 1]; [1; 1]]]%Q.
+  ex_opinvs = [Some [[dz 2; dz 1]; [dz 1; dz 3]]; Some [[dz 5; dz 1]; [dz 1; dz 4]]; None;
+               Some [[dz 0; dz 1]; [dz 1; dz 1]]].
 Proof. vm_compute. reflexivity. Qed.
